@@ -152,3 +152,50 @@ pub fn enum32(req: &Req) -> R<String> {
 	}
 	Ok(parts.join(";"))
 }
+
+/// `bigshuf n=<len> m=<amount> words=..`: `partial_shuffle(slice, m)` on a slice of `n` bytes (`n` beyond 2^32: the memory is
+/// calloc'ed and only the touched pages become real), with the first `m` elements marked 1..m; answers where the marks ended up
+/// (`ok:<pos of 1>,<pos of 2>,..:<words consumed>`). The slice lengths around 2^32 are part of "all slice lengths".
+pub fn bigshuf(req: &Req) -> R<String> {
+	let n = req.usize("n")?;
+	let m = req.usize("m")?;
+	let words = req.list_u64("words")?;
+	if n > (1usize << 33) + 4096 || m > 8 || m > n {
+		return Err(Bad);
+	}
+	let mut v = vec![0u8; n];
+	for i in 0..m {
+		v[i] = (i + 1) as u8;
+	}
+	let res = with_mock(&words, |r| r.partial_shuffle(&mut v[..], m));
+	Ok(match res {
+		None => "panic".into(),
+		Some((_, c)) => {
+			let mut pos = vec![usize::MAX; m];
+			let mut found = 0;
+			// 64 bits at a time: almost everything is zero
+			let (pre, mid, post) = unsafe { v.align_to::<u64>() };
+			let mut note = |i: usize, b: u8| {
+				if b != 0 {
+					pos[(b - 1) as usize] = i;
+					found += 1;
+				}
+			};
+			for (i, &b) in pre.iter().enumerate() {
+				note(i, b);
+			}
+			for (j, &w) in mid.iter().enumerate() {
+				if w != 0 {
+					for (t, b) in w.to_ne_bytes().iter().enumerate() {
+						note(pre.len() + j * 8 + t, *b);
+					}
+				}
+			}
+			for (i, &b) in post.iter().enumerate() {
+				note(pre.len() + mid.len() * 8 + i, b);
+			}
+			let _ = found;
+			format!("ok:{}:{}", join(&pos, ","), c)
+		}
+	})
+}
